@@ -122,7 +122,7 @@ var reserved = map[string]bool{"root": true, "packet": true, "repeat": true, "ma
 
 // spicy are text fragments that trip naive text handling: printf verbs, shell
 // and template metacharacters, quotes, backslashes, multi-byte runes.
-var spicy = []string{"100% of", "%s", "%d%%", "%v %+v", "%!", "$HOME", "${x}", "<b>&amp;</b>", "{{.}}", "a\\nb", "\\", "'q'", "\"dq\"", "tab\there", "semi;colon", "#hash", "消息\u3000类型", "émoji ☃", "-- dash", "/* c */", "// not a comment", "@tag(1)", "[1, 2]", "trailing "}
+var spicy = []string{"sep is \\n (LF)", "\\t\\r\\n", "\\0 \\x41 \\u00e9", "%0A%0D", "100% of", "%s", "%d%%", "%v %+v", "%!", "$HOME", "${x}", "<b>&amp;</b>", "{{.}}", "a\\nb", "\\", "'q'", "\"dq\"", "tab\there", "semi;colon", "#hash", "消息\u3000类型", "émoji ☃", "-- dash", "/* c */", "// not a comment", "@tag(1)", "[1, 2]", "trailing "}
 
 func (g *gen) desc() string {
 	if g.r.Chance(1, 2) {
